@@ -23,11 +23,11 @@ CLAIMED = {
   'C04': dict(engine='c04', design='5/C04',
      technique='deterministic simulation: seeded worlds (generated free-rooted forests, two- and three-body collision scenes, rest scenes) stepped as vmapped lanes with seeded control schedules and kick/spin/displace disturbances injected through pipeline.init; conservation invariant evaluated after every step',
      text='Generated models are loaded with the real mjcf loader and stepped by the real spring and positional pipelines for 1-200 steps under seeded control schedules (random, bang-bang, held, beyond range, unstable gains) and re-initialisation kicks; after every step total linear momentum must have changed by exactly M g dt (1e-9 relative in float64). Rest scenes: all three pipelines, q inside limits, no gravity/control/contact, must stay at rest. Sampled exploration; known defect (per-link impulse averaging with >= 3 bodies in contact) is listed in known_findings.json.',
-     note='Trusted: harness arithmetic on public state fields (mass, xd_i.vel). float32 runs are a gross-error net only (5e-3).'),
+     note='Trusted: harness arithmetic on public state fields (mass, xd_i.vel). float32 momentum runs are a gross-error net only (5e-3 + round-off floor); the rest case runs in float64 only. Self-colliding forests enable collisions on exactly two links; the multi-body averaging defect is demonstrated by the threebody mode and listed in known_findings.json.'),
   'C06': dict(engine='c06', design='5/C06',
      technique='deterministic simulation: lock-step twin worlds (collisions disabled / limits removed) under seeded states, controls and workload classes (far, near-approach, grazing, approach-to-limit) with a harness-computed geometric guard; primitive drop/push/rebound histories with per-step invariants',
      text='Twin worlds are stepped in lock-step by the real pipelines and compared step by step while a conservative separation / inside-limits guard computed by the harness (closed-form support heights, bounding spheres, range margins) holds; penetrating primitives must never be displaced further into the ground; dropped spheres, flat boxes and lying capsules must not sink more than 6 cm and must settle at the analytic height (every step of a 3 s history at dt = 1 ms); sphere rebound ratio within the margins stated in the property. Sampled exploration.',
-     note='Trusted: harness geometry (cross-checked against brute-force corners). Thresholds for resting from a calibration sweep; dt = 1 ms only.'),
+     note='Trusted: harness geometry (cross-checked against brute-force corners and brax distances). Thresholds for resting from a calibration sweep; dt = 1 ms only. Limit twins and positional plane twins use no springs/actuators (the positional predictor can reach a limit or the plane inside a step under stiff actuation); float32 twins compare the first guarded step only.'),
   'C07': dict(engine='c07', design='5/C07',
      technique='deterministic simulation: batch members as parties; seeded neighbour fault schedules (different values, NaN, Inf, huge, permuted order, terminating every step) against an unchanged victim member, bitwise comparison of the victim trajectory; batched vs solo and jit vs eager with a perturbation-based continuity filter',
      text='The three pipelines under vmap/jit, VmapWrapper/EpisodeWrapper/AutoResetWrapper over a scripted env and over real bundled envs, and the domain-randomisation wrapper are executed twice with the victim member unchanged and every other member changed or poisoned: the victim trajectory (10-40 steps across auto-reset boundaries) must be bit-identical. Batched step vs solo step (re-synchronised each step) and jit vs eager agree to 1e-7 (float64) wherever the step is continuous (multi-perturbation filter). Sampled exploration.',
